@@ -1,6 +1,7 @@
 //! dst — deterministic simulation testing of RustDDS (see /verif/DESIGN.md)
 mod ctx;
 mod e1;
+mod e1world;
 mod iso;
 mod props;
 mod runner;
